@@ -570,3 +570,46 @@ pub fn drop_candidates(spec: &Value, path: &[&str]) -> Vec<Value> {
     }
     out
 }
+
+/// `akd-sim fingerprints <ID> <tier> <n>`: one line per run with everything observable about it;
+/// two processes (different RandomState, different thread counts) must print identical output.
+pub fn fingerprints(arm: &dyn Arm, tier: Tier, base_seed: u64, n: u64) {
+    let threads: usize = std::env::var("VERIF_THREADS").ok().and_then(|s| s.parse().ok()).unwrap_or(16);
+    let next = AtomicU64::new(0);
+    let out = Mutex::new(BTreeMap::new());
+    std::thread::scope(|s| {
+        for _ in 0..threads {
+            s.spawn(|| {
+                crate::sched::install_quiet_panic_hook();
+                loop {
+                    let i = next.fetch_add(1, Ordering::Relaxed);
+                    if i >= n {
+                        break;
+                    }
+                    let seed = run_seed(base_seed, arm.id(), i);
+                    let mut rng = Rng::new(seed);
+                    let spec = arm.gen(&mut rng, tier, i);
+                    let chooser = ChooserSpec::Seeded(mix(&[seed, 0x5ced]));
+                    let rep = arm.run(&spec, &chooser, false);
+                    let line = format!(
+                        "{i} seed={seed} spec={:016x} inter={:016x} trace={:016x} steps={} vms={} checks={} states={:016x} probes={:016x} viol={:?} herr={:?}",
+                        crate::rng::fp(&spec.to_string()),
+                        rep.stats.interleaving,
+                        crate::rng::fp(&rep.trace),
+                        rep.stats.steps,
+                        rep.stats.virtual_ms,
+                        rep.checks,
+                        crate::rng::fp(&rep.states),
+                        crate::rng::fp(&rep.probes),
+                        rep.violations.iter().map(|v| (&v.class, &v.detail)).collect::<Vec<_>>(),
+                        rep.harness_error
+                    );
+                    out.lock().unwrap().insert(i, line);
+                }
+            });
+        }
+    });
+    for (_, l) in out.into_inner().unwrap() {
+        println!("{l}");
+    }
+}
